@@ -1,6 +1,10 @@
 """C04 part DSS: DSA and ECDSA (FIPS 186 with a tape-driven nonce, RFC 6979 deterministic), binary and DER encodings.
 
 References: mc.ref.dsa (FIPS 186-4 4.6/4.7, RFC 6979), mc.ref.ec (ECDSA, RFC 6979), mc.ref.der (strict DER).
+
+Thorough tier only: six more boundary private keys per domain / curve (BOUNDARY_T), octet sweeps (dss_octet_sweep: one octet of
+the authentic signature takes every value), the extended tape set (fips_tapes(q, "ext")), and DSA domains outside the FIPS
+(L, N) list (NONFIPS_LN, nonfips_case: observations only, DSS.new documents the four pairs as a precondition).
 """
 import hashlib
 
@@ -709,11 +713,13 @@ def worker(shards):
             _, r, s = r0
             n = 0
             for name in which:
+                n0 = n
                 for tag, cand in dss_octet_sweep(kd, enc, r, s, name):
                     _tally(acc, kd, "det", enc, tag, *dss_verify_case(kd, "det", enc, hn, msg, cand, tag, acc))
                     n += 1
                     acc.count("octet_sweep_cases")
-                acc.seen("sweep_cfgs", (kd["name"], enc, hn, name))
+                if n > n0:
+                    acc.seen("sweep_cfgs", (kd["name"], enc, hn, name))
             last = {"part": "dss-octet-sweep", "key": kd["name"], "encoding": enc, "hash": hn, "message": mn,
                     "positions": list(which), "candidates": n}
         elif kind == "nonfips":
